@@ -787,6 +787,14 @@ class LineWorld:
                 self.facts.append('op:' + self.ops[i][0])
             else:
                 raise HarnessError(f'unknown label {label}')
+            # always-on step check (C01 in situ): the tie group taken from the head of the library's queue must be the
+            # true minimum of ALL pending events by (time, -priority); the clock follows the executed event
+            if env._events:
+                m_ = min((e.time, -float(e.event_type)) for e in env._events)
+                if (ev.time, -float(ev.event_type)) != m_:
+                    raise Violation('dispatch_order', f'event due at t={ev.time} priority {float(ev.event_type)} offered for dispatch '
+                                                      f'while an event with (time, -priority)={m_} is pending')
+            t_before = env.now
             # move the chosen event to the front of its tie group and run the REAL step
             env._events.remove(ev)
             ev.random_weight = -1.0
@@ -807,6 +815,10 @@ class LineWorld:
                                         getattr(f, '__name__', None) or getattr(getattr(f, 'func', None), '__name__', '?'),
                                         float(ev.event_type)))
             Environment.step(env)
+            if env.now != ev.time or env.now < t_before:
+                raise Violation('clock', f'clock {t_before} -> {env.now} after executing an event due at {ev.time}')
+            if not ev.cancelled and not ev.executed:
+                raise Violation('not_executed', f'dispatched event {canon.event_key(ev)[3]} did not run')
             for m in self.monitors:
                 m.after(self, label, ev)
             if env._terminated or not env._events or env._events[0].time > env.now:
